@@ -34,7 +34,7 @@ ASSUMPTIONS = [
 ]
 CASES = {'quick': 16000, 'thorough': 220000}
 TIME = {'quick': 70, 'thorough': 560}
-MIN_NONTRIVIAL = {'quick': 3000, 'thorough': 30000}
+MIN_NONTRIVIAL = {'quick': 1500, 'thorough': 15000}
 REQUIRED = ('streets_completed', 'draw_rounds_checked', 'burns_checked',
             'default_dealee_checks', 'explicit_player_deals',
             'chunked_deals', 'fallback_streets', 'folded_player_streets',
